@@ -236,6 +236,11 @@ class Unit:
                 lines.append('  %s %s%s;' % (em.ctype(mm.group(1)), m, mm.group(2)))
             else:
                 lines.append('  %s %s;' % (em.ctype(t), m))
+        pad = getattr(self, 'struct_pad', {}).get(cname)
+        if pad:
+            # R19: trailing padding so that sizeof is a power of two (layout only: no extracted code observes sizeof or the padding)
+            cxx2c.fire('R19')
+            lines.append('  char vpad_[%d];' % pad)
         lines.append('} %s;' % cname)
         # positional constructor used for brace-init (R7)
         if all('[' not in t for t in members.values()):
